@@ -104,7 +104,12 @@ V("C14", "lookup key shifted", "C14.key-provenance", (SYM, 'crystal_system = SPA
 V("C14", "twin: formatted float", "silent", (TAB, "[0.0, 0.0, 0.91666667],\n                    [0.0, 0.0, 0.75],", "[0.0, 0.0, 11 / 12],\n                    [0.0, 0.0, 0.75],"))
 
 # ------------------------------------------------------------------------------------------ C15
-V("C15", "float equality again", "R15.1", (SYM, "if determinant < 0:", "if determinant == -1:"))
+V("C15", "twin: float equality on database rotations (exactly +-1.0 there)", "silent", (SYM, "if determinant < 0:", "if determinant == -1:"))
+V("C15", "twin: truncated determinant on database rotations", "silent", (SYM, "            determinant = np.linalg.det(rotation)\n            if determinant < 0:", "            determinant = int(np.linalg.det(rotation))\n            if determinant == -1:"))
+V("C15", "rotations of the input cell with float equality", "R15.1", (SYM, "        hall_number = self.get_hall_number()\n        rotations = spglib.get_symmetry_from_database(hall_number)[\"rotations\"]", "        rotations = self.get_symmetry_operations()[\"rotations\"]"), (SYM, "if determinant < 0:", "if determinant == -1.0:"))
+V("C15", "rotations of the input cell (supercell subgroup)", "R15.3", (SYM, "        hall_number = self.get_hall_number()\n        rotations = spglib.get_symmetry_from_database(hall_number)[\"rotations\"]", "        rotations = self.get_symmetry_operations()[\"rotations\"]"))
+V("C15", "database queried with a constant hall number", "R15.3", (SYM, "rotations = spglib.get_symmetry_from_database(hall_number)[\"rotations\"]", "rotations = spglib.get_symmetry_from_database(1)[\"rotations\"]"))
+V("C15", "memo not cleared by reset", "R15.4", (SYM, "        self._best_transform = None\n\n    def get_material_id", "\n    def get_material_id"))
 V("C15", "twin: rounded equality", "silent", (SYM, "if determinant < 0:", "if round(determinant) == -1:"))
 V("C15", "twin: isclose", "silent", (SYM, "if determinant < 0:", "if np.isclose(determinant, -1):"))
 V("C15", "polarity inverted", "R15.2", (SYM, "if determinant < 0:", "if determinant > 0:"))
@@ -254,3 +259,14 @@ V("C16", "python passes cell and pbc swapped", "R16.4", (GEO, "        system.ge
 
 V("C10", "distance matrices swapped in the Distances record", "R10.5", (GEO, "        dist_matrix_mic,\n        dist_matrix_radii_mic,\n    )", "        dist_matrix_radii_mic,\n        dist_matrix_mic,\n    )"))
 V("C10", "radii-corrected matrix aliases the raw one", "R10.5", (GEO, "dist_matrix_radii_mic = np.array(dist_matrix_mic)", "dist_matrix_radii_mic = dist_matrix_mic"))
+
+V("C09", "cutoff from the mean radius", "R09.2", (GEO, "    max_radii = radii_1x.max()", "    max_radii = radii_1x.mean()"))
+V("C09", "cutoff from covalent radii regardless of the chosen radii", "R09.2", (GEO, "    max_radii = radii_1x.max()", "    max_radii = covalent_radii[num_1x].max()"))
+V("C09", "clip removed", "R09.2", (GEO, "    np.clip(dist_matrix, a_min=0, a_max=1.1 * threshold, out=dist_matrix)\n", ""))
+V("C01", "localize stops at the first foreign cluster", "R01.11", (SBC, "                    if cluster != max_cluster:\n                        ind_set.remove(i)\n                    cluster.indices = list(ind_set)",
+                                                                  "                    if cluster != max_cluster:\n                        ind_set.remove(i)\n                        cluster.indices = list(ind_set)\n                        break\n                    cluster.indices = list(ind_set)"))
+V("C01", "overlaps resolved only for three or more clusters", "R01.11", (SBC, "            if len(i_clusters) > 1:\n                surrounding_indices", "            if len(i_clusters) > 2:\n                surrounding_indices"))
+V("C01", "index collection as a list with the seed prepended", "R01.12", (SBC, "                i_indices = {i_seed}\n                i_indices.update(i_grain.get_basis_indices())", "                i_indices = [i_seed]\n                i_indices.extend(i_grain.get_basis_indices())"))
+V("C01", "working copy not wrapped", "R01.13", (SBC, "        # Positions are wrapped\n        system_copy.wrap()\n", "        # Positions are wrapped\n"))
+V("C01", "wrap after the distances", "R01.13", (SBC, "        # Positions are wrapped\n        system_copy.wrap()\n\n        atomic_numbers = system.get_atomic_numbers()\n        radii = matid.geometry.get_radii(radii, atomic_numbers)\n\n        # Calculate the distances here once if they have not been provided.\n        distances = matid.geometry.get_distances(system_copy, radii)\n",
+                                                "        atomic_numbers = system.get_atomic_numbers()\n        radii = matid.geometry.get_radii(radii, atomic_numbers)\n\n        # Calculate the distances here once if they have not been provided.\n        distances = matid.geometry.get_distances(system_copy, radii)\n\n        # Positions are wrapped\n        system_copy.wrap()\n"))
